@@ -292,6 +292,25 @@ VMsgTable(ev) ==
      ELSE IF bodies # subenc THEN PBad("C04: the messages over all scalars are not exactly the subgroup, each element once", "")
      ELSE PGood
 
+(* ---- beyond the listed properties: the unknown-group element API and util helpers ---- *)
+(* points are given by their encodings; "zero" names the identity                    *)
+UPoint(c, h) == IF h = "zero" THEN EdId ELSE EdDecodePoint(c, HexToBytes(h)).e
+VUnknownOp(ev) ==
+  LET c  == GroupTable[ev.grp]
+      P  == UPoint(c, ev.a)
+      e  == IF ev.fn = "add" THEN AffAdd(c, P, UPoint(c, ev.b)) ELSE AffMul(c, P, PHNum(ev.n))
+  IN IF ev.out.t # "elem" THEN PBad("unknown-group element API raised", BytesToHex(EdEnc(c, e)))
+     ELSE IF HexToBytes(ev.out.enc) # EdEnc(c, e) THEN PBad("unknown-group element " \o ev.fn \o " is not the Edwards group law", BytesToHex(EdEnc(c, e)))
+     ELSE PGood
+VUnknownDec(ev) ==
+  LET c == GroupTable[ev.grp]
+      r == EdDecodePoint(c, HexToBytes(ev.b))
+  IN IF r.ok # (ev.out.t = "elem") THEN PBad("bytes_to_unknown_group_element accepts/rejects", IF r.ok THEN "accept" ELSE "reject")
+     ELSE IF r.ok /\ HexToBytes(ev.out.enc) # HexToBytes(ev.b) THEN PBad("bytes_to_unknown_group_element does not re-encode", "")
+     ELSE PGood
+VMaskTable(ev) ==
+  LET bad == {m \in 1..Len(ev.masks) : ev.masks[m] # GenerateMask(NLit(m))[1] \/ ev.nbytes[m] # GenerateMask(NLit(m))[2]}
+  IN IF bad = {} THEN PGood ELSE PBad("generate_mask(" \o ToString(FirstBad(bad)) \o ")", "")
 PureVerdict(ev) ==
   CASE ev.op = "g_dec_table" -> VDecTable(ev)
     [] ev.op = "g_dec"       -> VDec(ev)
@@ -311,6 +330,9 @@ PureVerdict(ev) ==
     [] ev.op = "finalize_sym" -> VFinalizeSym(ev)
     [] ev.op = "params_sound" -> VParamsSound(ev)
     [] ev.op = "ctor_table"  -> VCtorTable(ev)
+    [] ev.op = "u_op"        -> VUnknownOp(ev)
+    [] ev.op = "u_dec"       -> VUnknownDec(ev)
+    [] ev.op = "mask_table"  -> VMaskTable(ev)
     [] ev.op = "msg_table"   -> VMsgTable(ev)
     [] ev.op = "ed_tab"      -> VEdTab(ev)
     [] ev.op = "ed_op"       -> VEdOp(ev)
